@@ -125,7 +125,7 @@ def gen_template(rng, features: Dict[str, int]):
         features['typed_' + kind] = features.get('typed_' + kind, 0) + 1
     if rng.random() < 0.3:
         ne = Entity(tmpl, keys={'classname': 'func_instance', 'targetname': 'nested', 'file': 'other.vmf', 'origin': '1 2 3', 'angles': '0 0 0'})
-        ne.fixup['inner'] = rng.choice(('relay', '@glob', '123', 'Door_A'))
+        ne.fixup['inner'] = rng.choice(('relay', '@glob', '123', 'Door_A', 'r2d2', 'x1', '-5', '.5'))
         ne.fixup['second'] = '$var'
         tmpl.add_ent(ne)
         features['nested_instance'] = features.get('nested_instance', 0) + 1
